@@ -69,7 +69,8 @@ theorem ctrlpts2d_setter_getter (su sv : ℕ) (P : List α) (h : P.length = su *
     setCtrlpts2dLoop (ctrlpts2dOf su sv P) = (su, sv, P) := by
   rw [setCtrlpts2dLoop_eq]; exact setCtrlpts2d_ctrlpts2dOf h hsu
 
-/-- `SurfaceManager.find_index` and `VolumeManager.find_index` are the flat indices. -/
+/-- `SurfaceManager.find_index` and `VolumeManager.find_index` are the flat indices.
+    (Unfolding lemma: the model of `find_index` is the flat-index formula.) -/
 theorem managers_find_index (su sv sw u v w : ℕ) :
     surfFindIndex su sv u v = flatIdx2 sv u v ∧ volFindIndex su sv sw u v w = flatIdx3 su sv u v w :=
   ⟨surfFindIndex_eq su sv u v, volFindIndex_eq su sv sw u v w⟩
@@ -245,14 +246,16 @@ theorem extract_construct_volume_w_pinned (V : Vol α κ) (h : V.WF) :
 /-! ## 6. sweeping along a vector -/
 
 /-- Repaired `sweep_vector` on a curve returns a surface of degree `1 × p` with sizes `2 × n`, and its
-    two `u`-sections (the `'v'` family of `extract_curves`) are the input curve and its translate. -/
+    two `u`-sections (the `'v'` family of `extract_curves`) are the input curve and its translate.
+    (Mostly unfolding (`rfl` components of the constructed record); the substantive part is the last conjunct.) -/
 theorem sweep_curve_sections (tr : α → α) (kvGen : κ) (C : Crv α κ) :
     ∃ S, sweepCurve tr kvGen C = some S ∧ S.du = 1 ∧ S.dv = C.deg ∧ S.ku = kvGen ∧ S.kv = C.kv ∧
       S.su = 2 ∧ S.sv = C.pts.length ∧ extractCurvesV S = [C, { C with pts := C.pts.map tr }] :=
   ⟨_, sweepCurve_eq tr kvGen C, rfl, rfl, rfl, rfl, rfl, rfl, extractCurvesV_sweep tr kvGen C⟩
 
 /-- `sweep_vector` on a surface returns a volume of degree `pu × pv × 1` with sizes `su × sv × 2`, and its
-    two `w`-sections (the `'uv'` family of `extract_surfaces`) are the input surface and its translate. -/
+    two `w`-sections (the `'uv'` family of `extract_surfaces`) are the input surface and its translate.
+    (Mostly unfolding (`rfl` components of the constructed record); the substantive part is the last conjunct.) -/
 theorem sweep_surface_sections (tr : α → α) (kvGen : κ) (S : Srf α κ) (h : S.WF) :
     ∃ V, sweepSurface tr kvGen S = some V ∧ V.du = S.du ∧ V.dv = S.dv ∧ V.dw = 1 ∧ V.kw = kvGen ∧
       V.su = S.su ∧ V.sv = S.sv ∧ V.sw = 2 ∧ extractSurfacesUV V = [S, { S with pts := S.pts.map tr }] :=
@@ -268,12 +271,14 @@ theorem sweep_rational_point {K : Type} [Field K] (vec xs : List K) (w : K) (hw 
 /-! ## 7. the pinned code violates the property (findings F-13a, F-13b) -/
 
 /-- F-13a: on the 2×3×4 net `0..23` the pinned `construct_volume('u', …)` applied to the `'vw'` family does
-    not return the volume … -/
+    not return the volume …
+    (Closed witness check: a statement about this one concrete input, decided by evaluation.) -/
 theorem constructVolumePinned_refutes_u :
     constructVolumePinned Dir.u c13WitnessVol.du c13WitnessVol.ku (extractSurfacesVW c13WitnessVol)
       ≠ some c13WitnessVol := by decide
 
-/-- … nor does `construct_volume('v', …)` applied to the `'uw'` family. -/
+/-- … nor does `construct_volume('v', …)` applied to the `'uw'` family.
+    (Closed witness check: a statement about this one concrete input, decided by evaluation.) -/
 theorem constructVolumePinned_refutes_v :
     constructVolumePinned Dir.v c13WitnessVol.dv c13WitnessVol.kv (extractSurfacesUW c13WitnessVol)
       ≠ some c13WitnessVol := by decide
